@@ -383,7 +383,7 @@ func runC14(c *Ctx) {
 		r.Unresolved("evict/pre-triggered-iff-evicted", pkg+".evictionState.EvictionEvent", "method not found")
 	} else {
 		fd := p.FuncDecl(pkg, "evictionState", "EvictionEvent")
-		recv := fd.Recv.List[0].Names[0].Name
+		recv := recvIdentOf(fd).Name
 		last := recv + ".lastEvictedSlot"
 		// truth table over (nothing evicted yet, slot > last evicted), whatever the spelling:
 		// the shared pre-triggered event is returned exactly when something was evicted and the
@@ -474,7 +474,7 @@ func runC14(c *Ctx) {
 			df := newFuncCFG(p, p.Pkg(pkg).TypesInfo, fd.Body, pkg+".sortedSet.deleteSorted")
 			s = strings.Join(df.Effects(), "; ")
 			if fd.Recv != nil && len(fd.Recv.List) == 1 && len(fd.Recv.List[0].Names) == 1 {
-				s = regexp.MustCompile(`\b`+regexp.QuoteMeta(fd.Recv.List[0].Names[0].Name)+`\.`).ReplaceAllString(s, "$$.")
+				s = regexp.MustCompile(`\b`+regexp.QuoteMeta(recvIdentOf(fd).Name)+`\.`).ReplaceAllString(s, "$$.")
 			}
 		}
 		if hasAll(s, "$.sortedElements[i]=$.sortedElements[(i+1)]", "$.sortedElements[i].index--", "$.sortedElements=$.sortedElements[:(len($.sortedElements)-1)]") || deleteSortedBySplice(p, pkg, fd) {
